@@ -411,6 +411,91 @@ fn c08_cfg() -> BoxedStrategy<SimCfg> {
         .boxed()
 }
 
+/// byte-driven twins of `fop_strategy`, `c08_cfg` and `c14_cfg` for the coverage-guided tier (same value sets and
+/// weights as the proptest strategies above; see bytegen.rs)
+fn fop_from(c: &mut crate::bytegen::Cur, keepalive_focus: bool) -> FOp {
+    if keepalive_focus {
+        match c.weighted(&[4, 1, 6, 3, 4, 1, 1, 1]).unwrap_or(0) {
+            0 => FOp::Pub { qos: c.below(3) as u8, topic: c.below(3) as u8, size: c.below(30) as u16 },
+            1 => FOp::Sub { n: 1 + c.below(2) as u8 },
+            2 => FOp::WaitKeepAlive { quarters: 1 + c.below(13) as u8 },
+            3 => FOp::Wait { ms: c.pick(&[0u32, 1, 499, 500, 501, 999, 1000, 1001, 1499, 1500, 1501, 3000]) },
+            4 => FOp::PingDelay { kind: c.below(5) as u8 },
+            5 => FOp::AckDelay { ms: c.pick(&[0u32, 300, 1200]) },
+            6 => FOp::Close,
+            _ => FOp::SrvPublish { qos: c.below(3) as u8, pid: c.below(4) as u8 },
+        }
+    } else {
+        match c.weighted(&[10, 2, 2, 4, 2, 2, 2, 1, 1]).unwrap_or(0) {
+            0 => {
+                let qos = c.below(3) as u8;
+                let topic = c.below(3) as u8;
+                let size = match c.weighted(&[4, 2, 2, 1]).unwrap_or(0) {
+                    0 => c.below(40) as u16,
+                    1 => 40 + (c.u16() % 560),
+                    2 => 4000 + (c.u16() % 5000),
+                    _ => 9000 + (c.u16() % 11000),
+                };
+                FOp::Pub { qos, topic, size }
+            }
+            1 => FOp::Sub { n: 1 + c.below(3) as u8 },
+            2 => FOp::Unsub { n: 1 + c.below(3) as u8 },
+            3 => FOp::Wait { ms: c.pick(&[0u32, 1, 10, 250, 5000]) },
+            4 => FOp::Close,
+            5 => FOp::AckDelay { ms: c.pick(&[0u32, 1, 40, 700]) },
+            6 => FOp::Frag { n: c.pick(&[1u16, 3, 100, 4096, u16::MAX]) },
+            7 => FOp::SrvPublish { qos: c.below(3) as u8, pid: c.below(4) as u8 },
+            _ => FOp::SessionLoss,
+        }
+    }
+}
+
+fn fcase_from(data: &[u8], keepalive_focus: bool, max_ops: usize) -> Option<FCase> {
+    use crate::bytegen::Cur;
+    if data.len() < 10 {
+        return None;
+    }
+    let mut h = Cur::new(&data[..8]);
+    let cfg = if keepalive_focus {
+        let v5 = h.prob(0.5);
+        let keep_alive = h.pick(&[None, Some(0u16), Some(1), Some(2), Some(3), Some(5), Some(60), Some(65535)]);
+        let server_keep_alive = h.wpick(&[(3, None), (1, Some(0u16)), (1, Some(1)), (1, Some(2)), (1, Some(3)), (1, Some(7)), (1, Some(65535))]);
+        let ping_timeout_ms = h.wpick(&[(1, 0u64), (1, 1), (2, 400), (1, 500), (1, 1500), (3, 10_000), (1, 100_000_000)]);
+        let buf_cap = h.wpick(&[(1, 64usize), (3, 4096)]);
+        let mut cfg = SimCfg { v5, keep_alive, ping_timeout_ms, buf_cap, drain: false, ..SimCfg::default() };
+        if v5 {
+            cfg.connack.server_keep_alive = server_keep_alive;
+        } else {
+            cfg.connack = ConnackTemplate { assign_client_id: false, ..ConnackTemplate::default() };
+        }
+        cfg
+    } else {
+        let v5 = h.prob(0.5);
+        let offline = h.below(4) as u8;
+        let one_at_a_time = h.prob(0.5);
+        let rejoin = h.below(3) as u8;
+        let buf_cap = h.wpick(&[(3, 4usize), (2, 5), (2, 7), (2, 16), (2, 64), (3, 4096)]);
+        let receive_max = h.wpick(&[(3, Some(1u16)), (2, Some(2)), (2, Some(3)), (1, Some(65535)), (2, None)]);
+        let keep_alive = h.wpick(&[(3, None), (1, Some(2u16)), (1, Some(60))]);
+        let mut cfg = SimCfg { v5, offline, one_at_a_time, rejoin, buf_cap, keep_alive, drain: false, ..SimCfg::default() };
+        if v5 {
+            cfg.connack.receive_max = receive_max;
+        } else {
+            cfg.connack = ConnackTemplate { assign_client_id: false, ..ConnackTemplate::default() };
+        }
+        cfg
+    };
+    let mut c = Cur::new(&data[8..]);
+    let mut ops = Vec::new();
+    while !c.exhausted() && ops.len() < max_ops {
+        ops.push(fop_from(&mut c, keepalive_focus));
+    }
+    if ops.is_empty() {
+        return None;
+    }
+    Some(FCase { cfg, ops })
+}
+
 impl Property for C08 {
     type Case = FCase;
 
@@ -421,6 +506,10 @@ impl Property for C08 {
     fn strategy(&self, tier: Tier) -> BoxedStrategy<FCase> {
         let n = if tier == Tier::Quick { 40 } else { 200 };
         (c08_cfg(), vec(fop_strategy(false), 1..n)).prop_map(|(cfg, ops)| FCase { cfg, ops }).boxed()
+    }
+
+    fn fuzz_case(&self, data: &[u8]) -> Option<FCase> {
+        fcase_from(data, false, 199)
     }
 
     fn check(&self, case: &FCase) -> CaseReport {
@@ -691,6 +780,10 @@ impl Property for C14 {
     fn strategy(&self, tier: Tier) -> BoxedStrategy<FCase> {
         let n = if tier == Tier::Quick { 30 } else { 120 };
         (c14_cfg(), vec(fop_strategy(true), 1..n)).prop_map(|(cfg, ops)| FCase { cfg, ops }).boxed()
+    }
+
+    fn fuzz_case(&self, data: &[u8]) -> Option<FCase> {
+        fcase_from(data, true, 119)
     }
 
     fn check(&self, case: &FCase) -> CaseReport {
